@@ -15,10 +15,31 @@ import sys
 NK = 2
 
 
+BIG = 150000        # characters of a "big" value (many database / file-system pages)
+
+
 def keyobj(keys, k):
     if keys == 'tuple':            # not a valid directory name: dir_archive stores the key in an input file
         return ('key', k)
     return 'k%d' % k
+
+
+def valobj(keys, v):
+    """keys == 'big': string keys and values that span many pages ('<id>:xxxx...'); otherwise the id itself"""
+    if keys == 'big' and isinstance(v, int) and v > 0:
+        return '%d:' % v + 'x' * BIG
+    return v
+
+
+def valid(keys, x):
+    """real value -> id (negative: not a value that was ever stored, e.g. a torn one)"""
+    if keys == 'big':
+        if isinstance(x, str) and ':' in x:
+            head, tail = x.split(':', 1)
+            if head.isdigit() and tail == 'x' * BIG:
+                return int(head)
+        return -8
+    return x if isinstance(x, int) and not isinstance(x, bool) and x > 0 else -8
 
 
 def keyid(keys, rk):
@@ -76,7 +97,7 @@ def project(keys, d):
         if k < 0:
             phantom = -7
             continue
-        out[k - 1] = v if isinstance(v, int) and not isinstance(v, bool) and v > 0 else -8
+        out[k - 1] = valid(keys, v)
     return out, phantom
 
 
@@ -87,19 +108,19 @@ def do_op(klepto, backend, w, keys, a, op):
     res = {'ok': True, 'exc': 'none', 'i': 0, 'm': [0] * NK}
     try:
         if t == 'set':
-            a[K(op['k'])] = op['v']
+            a[K(op['k'])] = valobj(keys, op['v'])
         elif t == 'update':
-            a.update({K(op['k']): op['v'], K(op['k2']): op['v2']})
+            a.update({K(op['k']): valobj(keys, op['v']), K(op['k2']): valobj(keys, op['v2'])})
         elif t == 'dump':
             a.dump()                       # `a` is a cache front holding the two entries
         elif t == 'del':
             del a[K(op['k'])]
         elif t == 'pop':
-            res['i'] = a.pop(K(op['k']))
+            res['i'] = valid(keys, a.pop(K(op['k'])))
         elif t == 'clear':
             a.clear()
         elif t == 'setdefault':
-            res['i'] = a.setdefault(K(op['k']), op['v'])
+            res['i'] = valid(keys, a.setdefault(K(op['k']), valobj(keys, op['v'])))
         elif t == 'popkeys':
             a.popkeys([K(op['k']), K(op['k2'])])
         elif t == 'popitem':
@@ -107,7 +128,7 @@ def do_op(klepto, backend, w, keys, a, op):
         elif t == 'open':
             front_open(klepto, backend, w, cached=False)
         elif t == 'get':
-            res['i'] = a[K(op['k'])]
+            res['i'] = valid(keys, a[K(op['k'])])
         elif t == 'contains':
             res['i'] = 1 if K(op['k']) in a else 0
         elif t == 'len':
@@ -355,15 +376,19 @@ def main():
     if role == 'forkstep':
         return forkstep(klepto, backend, w, keys, spec)
     a = raw_open(klepto, backend, w)
+    if spec.get('preclear') and not spec.get('noinit'):
+        # the handle has a history: it stored something and cleared the archive before the contents were built
+        a[keyobj(keys, 1)] = valobj(keys, 99)
+        a.clear()
     if not spec.get('noinit'):
         for k, v in enumerate(spec['init'], 1):
             if v:
-                a[keyobj(keys, k)] = v
+                a[keyobj(keys, k)] = valobj(keys, v)
     op = spec['op']
     if op['t'] == 'dump':
         c = klepto._archives.cache(archive=a)
-        c[keyobj(keys, op['k'])] = op['v']
-        c[keyobj(keys, op['k2'])] = op['v2']
+        c[keyobj(keys, op['k'])] = valobj(keys, op['v'])
+        c[keyobj(keys, op['k2'])] = valobj(keys, op['v2'])
         a = c
     if role == 'step':
         if spec.get('noinit'):
